@@ -149,21 +149,51 @@ def validate_impl(scn, fixes, lines, workdir, name='TR', timeout=600):
     return {'runs': result, 'wall': wall, 'records': recs, 'out': out}
 
 
+def obs_projection(run_recs):
+    """What the monitors can see of a run: the observable events (with their thread), crate-level blocking steps and the final queue states"""
+    key = []
+    last_q = None
+    for r in run_recs:
+        if r['kind'] == 'step':
+            if r['obs'] or (r['tb'] and r['op'] in ('wait', 'park', 'join')):
+                key.append((r['t'], r['op'] if r['tb'] else '', tuple((o[0], 0 if o[0] in ('spawn', 'exit') else o[1], o[2]) for o in r['obs'])))
+            last_q = tuple((q[0], q[1]) for q in r['q'])
+        elif r['kind'] == 'end':
+            key.append(('end', last_q))
+    return tuple(key)
+
+
 def monitor_obs(scn, fixes, lines, workdir, name='OT', timeout=600, recs=None):
-    """Monitor-only pass (no implementation model): returns dict run -> list of violated tags"""
+    """Monitor-only pass (no implementation model): returns dict run -> list of violated tags.
+    Runs whose observable projection is identical are judged once."""
     copy_specs(workdir)
     tracegen.write_obs_trace(scn, fixes, workdir, name)
     recs = recs if recs is not None else tracegen.convert(lines, scn.get('pipes', 0))
+    # split into runs and deduplicate by observable projection
+    per_run, cur = [], None
+    for r in recs:
+        if r['kind'] == 'run':
+            cur = [r]
+            per_run.append(cur)
+        elif cur is not None:
+            cur.append(r)
+    rep, members = {}, {}
+    for run in per_run:
+        key = obs_projection(run)
+        if key not in rep:
+            rep[key] = run
+            members[key] = []
+        members[key].append(run[0]['run'])
+    uniq = [r for run in rep.values() for r in run]
     trace_file = os.path.join(workdir, name + '_trace.ndjson')
-    open(trace_file, 'w').write('\n'.join(json.dumps(r) for r in recs) + '\n')
+    open(trace_file, 'w').write('\n'.join(json.dumps(r) for r in uniq) + '\n')
     out, rc, wall = run_tlc(workdir, name, workers=1, extra_env={'TRACE': trace_file}, timeout=timeout)
     viols = extract_print(out, 'VIOLS')
     reached = extract_print(out, 'REACHED')
     if viols is None or reached is None:
         return {'error': out[-3000:], 'rc': rc, 'wall': wall}
     runs, cur = {}, None
-    bounds = []
-    for i, r in enumerate(recs, start=1):
+    for i, r in enumerate(uniq, start=1):
         if r['kind'] == 'run':
             cur = r['run']
             runs[cur] = {'viols': [], 'first': i + 1, 'last': None, 'complete': False}
@@ -176,4 +206,10 @@ def monitor_obs(scn, fixes, lines, workdir, name='OT', timeout=600, recs=None):
                 for v in vs:
                     if v not in info['viols']:
                         info['viols'].append(v)
-    return {'runs': runs, 'wall': wall, 'out': out}
+    # give every run the verdict of its representative
+    full = {}
+    for key, run in rep.items():
+        verdict = runs.get(run[0]['run'], {'viols': [], 'complete': False})
+        for m in members[key]:
+            full[m] = {'viols': list(verdict['viols']), 'complete': verdict['complete']}
+    return {'runs': full, 'wall': wall, 'out': out, 'distinct_projections': len(rep), 'representatives': [run[0]['run'] for run in rep.values()]}
